@@ -89,7 +89,7 @@ package core
 // ---------------------------------------------------------------- the scan loop: directive assembly (C06, C01, C02)
 
 // state of the core between two lexemes
-//@ pred CoreScanInv(core *JApiCore) = core != nil && core.scanner != nil && NextInv(core.scanner) && core.scannersStack != nil && TreeWF()
+//@ pred CoreScanInv(core *JApiCore) = core != nil && core.scanner != nil && NextInv(core.scanner) && StackInv(core.scannersStack) && TreeWF()
 //@     && (core.currentContextDirective != nil ==> 0 <= core.currentContextDirective.depth)
 //@     && (core.currentDirective != nil ==> DirWF(core.currentDirective) && core.currentDirective != core.currentContextDirective && 0 <= core.currentDirective.depth
 //@            && (forall x *directive.Directive :: x != nil ==> x.Parent != core.currentDirective))
@@ -120,3 +120,53 @@ package core
 //@   requires CoreScanInv(core) && core.currentDirective != nil
 //@   modifies core.currentDirective.HasExplicitContext
 //@   ensures core.currentDirective.HasExplicitContext
+
+//@ func coordsFromLexeme
+//@   inline
+
+//@ func (*JApiCore).processParameter
+//@   tag C01 C02
+//@   requires core != nil && core.currentDirective != nil && core.scanner != nil && core.scanner.file != nil && LexOK(lexeme) && lexeme.file == core.scanner.file
+//@   modifies core.currentDirective.unnamedParameters, mapof(core.currentDirective.namedParameters)
+//@   ensures [C02] ret != nil ==> ret.file == lexeme.file && ret.index == lexeme.begin
+
+//@ func (*JApiCore).processAnnotation
+//@   tag C01
+//@   requires core != nil && core.currentDirective != nil && LexOK(lexeme)
+//@   modifies core.currentDirective.Annotation
+
+//@ func (*JApiCore).processBody
+//@   tag C01
+//@   requires core != nil && core.currentDirective != nil
+//@   modifies core.currentDirective.BodyCoords
+//@   ensures core.currentDirective.BodyCoords.file == lexeme.file && core.currentDirective.BodyCoords.begin == lexeme.begin && core.currentDirective.BodyCoords.end == lexeme.end
+
+// NewDirectiveType reads the keyword table (written once under sync.Once); assumed: a successful lookup yields a directive kind
+//@ func directive.NewDirectiveType
+//@   trusted
+//@   modifies nothing
+//@   ensures isnil(ret1) ==> 0 <= ret0 && ret0 <= 29
+//@ func directive.NewWithCallStack
+//@   inline
+
+//@ func (*JApiCore).setCurrentDirective
+//@   tag C01 C02 C06
+//@   requires core != nil && core.scanner != nil && core.scanner.file != nil && StackInv(core.scannersStack)
+//@   requires keywordCoords.file != nil && keywordCoords.begin <= len(keywordCoords.file.content) && keywordCoords.file == core.scanner.file
+//@   modifies core.currentDirective, heap(Directive.depth), core.scannersStack.includeTracers, mapof(core.scannersStack.includeTracers)
+//@   ghostensures ret == nil ==> core.currentDirective.depth == 0
+//@   ghostensures forall x *directive.Directive :: x != core.currentDirective || ret != nil ==> x.depth == old(x.depth)
+//@   ensures StackInv(core.scannersStack)
+//@   ensures ret == nil ==> fresh(core.currentDirective) && DirWF(core.currentDirective) && core.currentDirective.keywordCoords == keywordCoords
+//@        && core.currentDirective.Parent == nil && len(core.currentDirective.Children) == 0 && !core.currentDirective.HasExplicitContext
+//@   ensures [C02] ret != nil ==> ret.file == keywordCoords.file && ret.index == keywordCoords.begin
+
+//@ func (*JApiCore).processKeyword
+//@   tag C01 C02 C06
+//@   requires CoreScanInv(core) && LexOK(lexeme) && lexeme.file == core.scanner.file
+//@   ensures ret == nil ==> CoreScanInv(core) && core.currentDirective != nil
+
+//@ func (*JApiCore).next
+//@   tag C01 C02 C06
+//@   requires CoreScanInv(core) && LexOK(lexeme) && lexeme.file == core.scanner.file && 1 <= core.scanner.curIndex
+//@   ensures ret == nil ==> CoreScanInv(core)
